@@ -48,6 +48,12 @@ type Conn struct {
 	nc  net.Conn
 	b   *Broker
 	wmu sync.Mutex
+
+	qmu     sync.Mutex
+	q       []outItem
+	sent    []byte
+	writing bool
+	qclosed bool
 	// State is free for the handler (only touched on the reader goroutine).
 	State any
 }
@@ -70,6 +76,77 @@ func (c *Conn) Respond(f *Frame, resp kmsg.Response) error {
 
 // Close closes the connection.
 func (c *Conn) Close() { c.nc.Close() }
+
+type outItem struct {
+	data  []byte
+	close bool
+}
+
+// Send queues raw bytes for the connection's writer goroutine and returns at once; the
+// reader keeps reading while the client is slow to take the bytes (net.Pipe is unbuffered).
+// Everything queued is recorded in Sent() in order.
+func (c *Conn) Send(p []byte) { c.enqueue(outItem{data: append([]byte(nil), p...)}) }
+
+// CloseAfterSend closes the connection once everything queued before was written.
+func (c *Conn) CloseAfterSend() { c.enqueue(outItem{close: true}) }
+
+func (c *Conn) enqueue(it outItem) {
+	c.qmu.Lock()
+	if c.qclosed {
+		c.qmu.Unlock()
+		return
+	}
+	if it.close {
+		c.qclosed = true
+	} else {
+		c.sent = append(c.sent, it.data...)
+	}
+	c.q = append(c.q, it)
+	start := !c.writing
+	c.writing = true
+	if start {
+		c.b.wg.Add(1)
+	}
+	c.qmu.Unlock()
+	if start {
+		go c.writer()
+	}
+}
+
+func (c *Conn) writer() {
+	defer c.b.wg.Done()
+	for {
+		c.qmu.Lock()
+		if len(c.q) == 0 {
+			c.writing = false
+			c.qmu.Unlock()
+			return
+		}
+		it := c.q[0]
+		c.q = c.q[1:]
+		c.qmu.Unlock()
+		if it.close {
+			c.nc.Close()
+			continue
+		}
+		if _, err := c.nc.Write(it.data); err != nil {
+			// connection gone: drop the rest
+			c.qmu.Lock()
+			c.q = nil
+			c.writing = false
+			c.qmu.Unlock()
+			return
+		}
+	}
+}
+
+// Sent returns every byte queued with Send on this connection, in order, and whether the
+// script asked for the connection to be closed afterwards.
+func (c *Conn) Sent() ([]byte, bool) {
+	c.qmu.Lock()
+	defer c.qmu.Unlock()
+	return append([]byte(nil), c.sent...), c.qclosed
+}
 
 // Broker is the scripted endpoint.
 type Broker struct {
@@ -178,6 +255,13 @@ func (b *Broker) Frames() []Frame {
 	b.mu.Lock()
 	defer b.mu.Unlock()
 	return append([]Frame(nil), b.frames...)
+}
+
+// Conns returns the accepted connections in accept order.
+func (b *Broker) Conns() []*Conn {
+	b.mu.Lock()
+	defer b.mu.Unlock()
+	return append([]*Conn(nil), b.conns...)
 }
 
 // NumConns returns how many connections were accepted.
